@@ -10,6 +10,7 @@
 #![allow(dead_code)]
 mod ast;
 mod c18;
+mod cmp;
 mod filter;
 mod history;
 mod pool;
@@ -47,6 +48,9 @@ pub fn dispatch(rec: &J) -> Outcome {
     }
     if kind == "mathcase" || kind == "bigcheck" {
         return Outcome::ok(true); // evaluated by the trace stage (binding B)
+    }
+    if kind == "cmp" {
+        return cmp::run(rec);
     }
     if kind == "filter" {
         return filter::run(rec);
